@@ -234,6 +234,16 @@ where
             "reserve" => self.tab(t).reserve(ev.n as usize),
             "shrink_to" => self.tab(t).shrink_to(ev.n as usize),
             "shrink_to_fit" => self.tab(t).shrink_to_fit(),
+            "try_reserve" => {
+                let add = crate::mapdrv::decode_amount(ev.n, ev.j);
+                ev.r = match self.tab(t).try_reserve(add) {
+                    Ok(()) => vec![0, 0, 0],
+                    Err(hashbrown::TryReserveError::CapacityOverflow) => vec![1, 0, 0],
+                    Err(hashbrown::TryReserveError::AllocError { layout }) => {
+                        vec![2, layout.size().min(i32::MAX as usize) as i64, layout.align() as i64]
+                    }
+                };
+            }
             "retain" => {
                 let keep: Vec<i64> = ev.ks.clone();
                 let mut y = Vec::new();
